@@ -143,6 +143,9 @@ fn c32_canary_ptp_add_wraps() {
 
 #[cfg(all(kani, test))]
 mod replay {
+    extern crate std;
+    #[allow(unused_imports)]
+    use std::{vec, vec::Vec};
     use super::*;
     include!(concat!(env!("VERIF_REPLAY_DIR"), "/statime_base__time_types.rs"));
 }
